@@ -66,7 +66,8 @@ CLASS_OVERRIDES: dict[str, dict[str, list[Any]]] = {
     "RequestSeedRequest": {"security_access_type": [1, 0x11]},
     "SendKeyRequest": {"security_access_type": [2, 0x12]},
     "ClearDynamicallyDefinedDataIdentifierRequest": {"dynamically_defined_data_identifier": [0xF200, None]},
-    "WriteMemoryByAddressRequest": {"memory_size": [None], "address_and_length_format_identifier": [None]},
+    # memory_size 1 / 4: announced size differs from the two bytes shipped (a legitimate pentest input)
+    "WriteMemoryByAddressRequest": {"memory_size": [None, 1, 4], "address_and_length_format_identifier": [None]},
     "DefineByMemoryAddressRequest": {"address_and_length_format_identifier": [None]},
 }
 
